@@ -77,8 +77,42 @@ func runC02(c *Ctx) {
 	c.Rule("C02.O6", "E9", "every make([]byte,k) that feeds a kernel read has a provably positive k (constant, normalised config field, or normalised parameter)", 2)
 	c.Rule("C02.O7", "E5", "connsUnix element writers are addConn, addDialer and deleteConn; deleteConn removes only its own entry", 2)
 	c.Rule("C02.O9", "E4,E5", "Engine.Start: every engine field the poller loops read is assigned before the first poller goroutine is started (no go statement reaches a later store)", 1)
+	c.Rule("C02.O10", "E4", "ResetPollerEvent (the one-shot re-arm every read path relies on) registers with the kernel on both edges without consulting the isWAdded flag", 1)
+	c.Rule("C02.O11", "E4", "Read / ReadAndGetConn / doRead / readStream / readUDP hand the kernel's count and error through unchanged: no error is synthesised from a zero count (an empty datagram is not end-of-stream)", 5)
 	c.Rule("C02.O8", "E4", "udpConn.getConn: same key for lookup and insert; session created, stored and announced on the miss edge only", 2)
 	c02Published(c)
+	c02PassThrough(c)
+	if fn := c.Fn("C02.O10", "(*nbio.Conn).ResetPollerEvent"); fn != nil {
+		bad := ""
+		n := 0
+		for _, cs := range c.P.Calls(fn, nil) {
+			callee := ir.StaticCallee(cs.Common)
+			if callee == nil {
+				continue
+			}
+			switch c.P.FuncName(callee) {
+			case "(*nbio.poller).modWrite", "(*nbio.poller).resetRead":
+				n++
+			case "(*nbio.Conn).modWrite", "(*nbio.Conn).resetRead":
+				n++
+				fi := c.P.Info(callee)
+				for _, d := range c.P.Calls(callee, func(name string, _ ir.CallSite) bool {
+					return name == "(*nbio.poller).modWrite" || name == "(*nbio.poller).resetRead"
+				}) {
+					if fi.HasFact(d.In, func(ft ir.Fact) bool {
+						k, _, ok := c.P.BoolFieldTest(ft.Cond, ft.Truth)
+						return ok && k == fConnIsWAdded
+					}) {
+						bad = "the one-shot re-arm at " + c.Pos(cs.In) + " goes through " + c.P.FuncName(callee) + ", which registers only when the isWAdded flag disagrees: EPOLLONESHOT disarmed the descriptor regardless of the flag, so the connection gets no further read events"
+					}
+				}
+			}
+		}
+		if n < 2 && bad == "" {
+			bad = "expected a registration on the queue-empty and on the queue-non-empty edge"
+		}
+		c.Cond(bad == "", "C02.O10", fnKey(c.P, fn, "one-shot re-arm is unconditional"), c.FnPos(fn), fmt.Sprintf("%d registration call(s), none behind the flag", n), bad)
+	}
 
 	loops := c.readLoops()
 	if len(loops) != 3 {
@@ -733,4 +767,68 @@ func c02Published(c *Ctx) {
 	}
 	c.Cond(bad == "", "C02.O9", fnKey(c.P, start, "configuration published before the loops start"), c.FnPos(start),
 		fmt.Sprintf("%d go statement(s), %d engine field(s) read by the loops, %d store(s) in Start all before the first go", len(gos), len(reads), nst), bad)
+}
+
+// c02PassThrough: O11.  The (count, error) pair travels unchanged from the
+// kernel read to the read loops, which classify it (EINTR / EAGAIN / fatal).
+func c02PassThrough(c *Ctx) {
+	type spec struct {
+		fn      string
+		sources []string // callee names whose results may be returned
+	}
+	for _, sp := range []spec{
+		{"(*nbio.Conn).Read", []string{"(*nbio.Conn).doRead"}},
+		{"(*nbio.Conn).ReadAndGetConn", []string{"(*nbio.Conn).doRead"}},
+		{"(*nbio.Conn).doRead", []string{"(*nbio.Conn).readStream", "(*nbio.Conn).readUDP"}},
+		{"(*nbio.Conn).readStream", []string{"syscall.Read"}},
+		{"(*nbio.Conn).readUDP", []string{"syscall.Recvfrom"}},
+	} {
+		fn := c.Fn("C02.O11", sp.fn)
+		if fn == nil {
+			continue
+		}
+		fi := c.P.Info(fn)
+		fromSource := func(v ssa.Value) bool {
+			ex, ok := ir.Resolve(v).(*ssa.Extract)
+			if !ok {
+				return false
+			}
+			call, ok := ex.Tuple.(*ssa.Call)
+			if !ok {
+				return false
+			}
+			name := c.P.CalleeName(&call.Call)
+			for _, s := range sp.sources {
+				if name == s {
+					return true
+				}
+			}
+			return false
+		}
+		bad := ""
+		n := 0
+		for _, r := range fi.Returns() {
+			vals := ir.RetVals(r)
+			errV := vals[len(vals)-1]
+			cntV := vals[len(vals)-2]
+			if c.isNonNilErrorValue(errV) {
+				// a constant failure (closed connection, unsupported type): count must be 0
+				continue
+			}
+			n++
+			if !fromSource(errV) {
+				bad = "the error returned at " + c.Pos(r) + " is not the one the kernel read reported (" + c.P.Desc(errV) + "): the read loops would classify a synthesised error as fatal and close the connection"
+			}
+			if k, isK := ir.ConstInt(cntV); isK && k == 0 {
+				continue
+			}
+			if !fromSource(cntV) {
+				bad = "the count returned at " + c.Pos(r) + " is not the one the kernel read reported (" + c.P.Desc(cntV) + ")"
+			}
+		}
+		if n == 0 && bad == "" {
+			bad = "no pass-through return found"
+		}
+		c.Cond(bad == "", "C02.O11", fnKey(c.P, fn, "count and error passed through"), c.FnPos(fn), fmt.Sprintf("%d return(s) hand the results of %v through", n, sp.sources), bad)
+	}
 }
